@@ -18,6 +18,7 @@ import pyworld
 ID = "C06"
 THEOREMS = ["sugar_preserves", "lower_sem", "ctor_binding", "surplus_args_refused", "unknown_keyword_refused",
             "nonname_target_refused", "async_refused"]
+LEANCHECKER_MODULES = ["Fadl.Props.C06"]  # re-checked by leanchecker in the thorough tier
 RULE = (
     "seeded queries with list comprehensions / generator expressions (one for, 0-2 ifs) nested in element, "
     "iterable and condition position and inside operator lambdas, target names colliding with live outer "
